@@ -648,6 +648,8 @@ func (i *Interp) symFloatBinop(op token.Token, k types.BasicKind, x, y value) va
 			yi.t = c.IntConst(yi.lo)
 		}
 		var rsc uint
+		var quoExact *smt.Term
+		var quoM *big.Int
 		switch op {
 		case token.MUL:
 			rsc = xi.sc + yi.sc
@@ -666,6 +668,11 @@ func (i *Interp) symFloatBinop(op token.Token, k types.BasicKind, x, y value) va
 			if yc, ok := y.(float64); ok && yi.sc == 0 && yc > 0 {
 				if fr, e := math.Frexp(yc); fr == 0.5 && e >= 2 && e <= 12 {
 					rsc = xi.sc + uint(e-1)
+				} else if q, ok := c.ExactQuot(xi.t, yi.lo); ok {
+					// dividend is syntactically a multiple of the concrete divisor (sum*count/total
+					// with count a multiple of total): the IEEE quotient of two integers whose
+					// ratio is an integer is that integer
+					quoExact, quoM, rsc = q, yi.lo, xi.sc
 				}
 			}
 		default:
@@ -691,6 +698,9 @@ func (i *Interp) symFloatBinop(op token.Token, k types.BasicKind, x, y value) va
 			r = mk(c.IMul(a, b), lo, hi)
 		case token.QUO:
 			r = mk(a, alo, ahi)
+			if quoExact != nil {
+				r = i.norm(sym{t: quoExact, k: k, lo: new(big.Int).Div(alo, quoM), hi: new(big.Int).Add(new(big.Int).Div(ahi, quoM), big.NewInt(1)), sc: xi.sc})
+			}
 		case token.EQL:
 			return i.mkBool(c.Eq(a, b))
 		case token.NEQ:
